@@ -126,6 +126,11 @@ func RunOne(t *testing.T, prop string, seed uint64, opts RunOpts) (res RunResult
 			}
 			sim.Finish()
 			res.Viol = env.Viol
+			if env.Inconclusive != "" {
+				// the run was cut by the step or fake-time bound: its final state proves nothing; it is counted as
+				// inconclusive, never reported
+				res.Viol = nil
+			}
 			res.Steps, res.Switches, res.Stalls = sim.Steps, sim.Switches, sim.Stalls
 			res.FakeNs = int64(sim.Now())
 			res.Inconcl = env.Inconclusive
